@@ -62,6 +62,11 @@ def main(inp, outp):
         lofs = {"LofN": fr.orbit2frame(f"VfLofN{di}", ref, None, exists_warning=False),
                 "LofQ": fr.orbit2frame(f"VfLofQ{di}", ref, "QSW", exists_warning=False),
                 "LofT": fr.orbit2frame(f"VfLofT{di}", ref, "TNW", parent=fr.MOD, exists_warning=False)}
+        # a frame attached to a plain StateVector (no propagator) that the user holds in ANOTHER frame than the parent: a supported
+        # reference (hasattr(..., "propagate") branches of the library); the user's object must be left as it is
+        sref = ref.copy(frame="TEME", form="cartesian").as_statevector()
+        sref_snap = (np.asarray(sref, float).copy(), sref.frame.name, sref.form.name)
+        lofs["LofS"] = fr.orbit2frame(f"VfLofS{di}", sref, "QSW", exists_warning=False)
 
         def F(name):
             if name == "Station":
@@ -118,7 +123,7 @@ def main(inp, outp):
                 except Exception as e:
                     clause("a state in an element form converted to another frame (copy or in place) denotes the same cartesian state, in the same form", False,
                            "frames/form-carried", f"{walk} at {dspec}: {fo}: {type(e).__name__}: {e}", data)
-                same_centre = all(w not in ("Station", "LofN", "LofQ", "LofT", "Moon", "EML1", "EML4e") for w in walk)
+                same_centre = all(w not in ("Station", "LofN", "LofQ", "LofT", "LofS", "Moon", "EML1", "EML4e") for w in walk)
                 if same_centre:
                     # position map = proper rotation: images of the basis vectors
                     cols = []
@@ -153,9 +158,13 @@ def main(inp, outp):
                     # budget: Julian-date quantisation (<= 1.3e-3 m/s) + neglected precession / nutation / polar-motion rates
                     # (<= 6e-5 m/s); the Earth-rotation coupling itself is ~500 m/s.  Frames with QSW/TNW axes are excluded:
                     # the library's local orbital axes are instantaneous (no rotation-rate coupling) by design.
-                    if not any(w in ("LofQ", "LofT", "Moon", "EML1", "EML4e") for w in walk):
+                    if not any(w in ("LofQ", "LofT", "LofS", "Moon", "EML1", "EML4e") for w in walk):
                         clause("converted velocity equals the time derivative of the converted position (3e-3 m/s)", err <= 3e-3,
                                "frames/kinematics", f"{walk} at {dspec} [{job['eop']}]: seven-point derivative differs by {err:.3g} m/s", data)
+        if any("LofS" in w for w in job["walks"]):
+            same = np.array_equal(np.asarray(sref, float), sref_snap[0]) and sref.frame.name == sref_snap[1] and sref.form.name == sref_snap[2]
+            clause("the state vector a frame was attached to is left as the user holds it (frame, form, values)", same, "frames/reference-touched",
+                   f"at {dspec}: the reference given in {sref_snap[1]}/{sref_snap[2]} is now in {sref.frame.name}/{sref.form.name}", {"date": dspec})
         # the two precession-nutation chains agree to the accuracy of the uncorrected 1980 model - whatever time scale the
         # date of the state is labelled with (the same instant)
         for scale in ("UTC", "TAI", "TT", "GPS", "UT1", "TDB"):
